@@ -13,7 +13,7 @@ EXPLANATION = (
     'non-zero divisor. LIT-PAIR: literal text re-serialisation uses a conversion of the signedness of the parser that '
     're-reads it. LIT-CONV: each digit branch of the hex/octal/binary converters equals n*B + digit(c), evaluated for '
     'every admitted character; accumulators are 64 bits wide. R-ERR1: results of the evaluator\'s error-returning calls '
-    'are examined. Not decided: the value of arbitrary expressions (a proof about the algorithm). DIV-OVF: the signed / and % handle the divisor -1 before dividing (INT64_MIN / -1 traps like a zero divisor).')
+    'are examined. Not decided: the value of arbitrary expressions (a proof about the algorithm). TICK-FIRST: character constants are converted before the text-only `$` substitution. DIV-OVF: the signed / and % handle the divisor -1 before dividing (INT64_MIN / -1 traps like a zero divisor).')
 
 
 def run(tier, t0):
@@ -23,7 +23,7 @@ def run(tier, t0):
     def scope(fn):
         return fn.file in ('core/eval_expression.cpp', 'core/eval_expression.h', 'core/Var.cpp', 'core/Var.h',
                            'core/Operator.cpp', 'core/Operator.h')
-    results = [expr.prec(prog), expr.ops(prog), expr.cap(prog), expr.lit_pair(prog), expr.lit_conv(prog), expr.cap_protocol(prog),
+    results = [expr.prec(prog), expr.ops(prog), expr.cap(prog), expr.lit_pair(prog), expr.lit_conv(prog), expr.tick_first(prog), expr.cap_protocol(prog),
                div.div(prog, scope, 2), div.div_ovf(prog, scope, 2), err.err1(prog, scope, table, floor=5)]
     return report.finish('C04', tier, results, EXPLANATION,
                          ['the documented precedence table (docs + property statement) is transcribed in rules/expr.py'],
